@@ -83,6 +83,9 @@ def generate(seed, tier):
     s = {'kind': kind, 'placement': pl, 'circular': circ}
     if kind == 'dict':
         s['order'] = srng.perm(len(world['cells']) + len(world['names']))
+        if len(world['books']) == 1 and len(world['books'][0]) == 1 and \
+                srng.chance(.4):
+            s['placement'] = dict(pl, bare=True)   # keys 'A1', 'RATE'
     else:
         s.update(mode='loads', book_order=srng.perm(len(world['books'])),
                  sheet_orders={}, exec_seed=None, compact=srng.pick([1, 1, 2]))
